@@ -141,9 +141,18 @@ func (c *Channel) Deliver(out, x []byte) ([]byte, error) {
 	now := time.Now()
 	var appData []byte
 	if err := c.doThenSend(func() ([]byte, error) {
-		for i, se := range c.sessions {
+		// an InitHello belongs to the session that was created from it and to no other: a peer
+		// that restarted sends a new one, which must reach the new-session path below instead of
+		// being answered with an old session's cached handshake message.
+		sid, isHello := helloID(x)
+		sessions := c.sessions // the slots as they are now; a promotion below reshuffles c.sessions
+		for _, i := range deliveryOrder(x) {
+			se := sessions[i]
 			s := se.Session
 			if s == nil {
+				continue
+			}
+			if se.foreignHello(isHello, sid) {
 				continue
 			}
 			readyBefore := s.IsReady()
@@ -172,10 +181,9 @@ func (c *Channel) Deliver(out, x []byte) ([]byte, error) {
 			return out, nil
 		}
 		// The message did not match a session so now check if we can create a new session.
-		if !IsInitHello(x) {
+		if !isHello {
 			return nil, errors.New("message did not match a session")
 		}
-		sid := blake2b.Sum256(x)
 		for _, se := range c.sessions {
 			if se.ID == sid {
 				// repeated InitHello, nothing to do.
@@ -196,6 +204,31 @@ func (c *Channel) Deliver(out, x []byte) ([]byte, error) {
 		return nil, nil
 	}
 	return appData, nil
+}
+
+// helloID returns whether x is an InitHello, and if so the id of the session it creates
+// (the hash of the message).
+func helloID(x []byte) (sid [32]byte, isHello bool) {
+	if !IsInitHello(x) {
+		return sid, false
+	}
+	return blake2b.Sum256(x), true
+}
+
+// foreignHello reports whether the message is an InitHello (with id sid) that a responder session
+// other than the one in se was, or will be, created from.
+func (se sessionEntry) foreignHello(isHello bool, sid [32]byte) bool {
+	return isHello && !se.Session.IsInit() && se.ID != sid
+}
+
+// deliveryOrder returns the session slots in the order in which x is offered to them.
+// Handshake messages go to the newest session first: an established responder session would
+// otherwise answer the handshake of its successor with its own cached reply.
+func deliveryOrder(x []byte) [3]int {
+	if IsPostHandshake(x) {
+		return [3]int{0, 1, 2}
+	}
+	return [3]int{2, 1, 0}
 }
 
 // Close releases all resources associated with the channel.
